@@ -163,3 +163,10 @@ Theorem C15_table_rows_agree :
   (forall name fl, In (name, fl) c15_rows -> (name = "cumsum" \/ name = "cumprod")%string -> fl_dtypes fl = DsEmpty).
 Proof. exact table_rows_agree. Qed.
 Print Assumptions C15_table_rows_agree.
+
+(* The regenerated table: container.py binds ddof (partial(np.var, ddof=ddof) ...) in BOTH functions of var and of
+   std, so the model runs with the caller's ddof whatever skipna is. *)
+Theorem C15_table_ddof_bound : forall f skipna ddof,
+  c15_ddof_bound f skipna = true /\ eff_ddof c15_ddof_bound f skipna ddof = ddof.
+Proof. exact table_ddof_bound. Qed.
+Print Assumptions C15_table_ddof_bound.
